@@ -705,6 +705,7 @@ func (ipcp *IPCPStateMachine) stopTimer() {
 }
 
 func (ipcp *IPCPStateMachine) timeout() {
+	verifGate("ipcp.timeout", ipcp)
 	ipcp.mu.Lock()
 	defer ipcp.mu.Unlock()
 
